@@ -7,7 +7,7 @@ INTS = ["0", "1", "-1", "2", "-2", "3", "7", "-7", "10", "100", "32767", "-32768
         "-46341", "65536", "641", "6700417", "16777216", "16777217", "-16777217", "2147483646", "2147483647", "-2147483647", "-2147483648"]
 RATS = ["1/2", "-1/2", "1/3", "2/3", "-2/3", "3/2", "-7/3", "22/7", "1/32767", "32767/32768", "1/65536",
         "65537/65536", "2147483647/2", "1/2147483647", "-2147483648/3", "1/641", "1/6700417", "4/2", "6/4", "0/5",
-        "16666667/50000000", "7/13", "31/7", "-13/11", "15/19", "(/ 1 -2)", "(+ 1/2 1/2)", "(/ 6 4)", "(- 1/2 1/2)", "(* 2/3 3/2)", "(/ -3 -6)"]
+        "16666667/50000000", "2/4294967294", "1/4294967295", "1/2147483648", "7/13", "31/7", "-13/11", "15/19", "(/ 1 -2)", "(+ 1/2 1/2)", "(/ 6 4)", "(- 1/2 1/2)", "(* 2/3 3/2)", "(/ -3 -6)"]
 REALS = ["0.0", "-0.0", "1.0", "-1.0", "0.5", "1.5", "-1.5", "2.5", "-2.5", "0.1", "1e10", "1e-10", "3.4e38", "1e39",
          "-1e39", "(/ 0. 0.)", "16777216.0", "-16777216.0", "0.25", "0.33333334", "16777217.0", "2147483648.0", "-2147483648.0", "2147483520.0",
          "-2147483904.0", "1e-45", "3.5", "-3.5", "1e2",
@@ -304,4 +304,10 @@ def check_eqv_mixed(operand_canon, result):
     a, b = operand_canon
     if (a.startswith("r:")) != (b.startswith("r:")) and result != "V #f":
         return "the operands differ in exactness, yet eqv? answers %s" % result
+    if a.startswith("r:") and b.startswith("r:"):
+        # both inexact: eqv? exactly when numerically equal (0.0 and -0.0 are; not-a-number equals nothing)
+        fa, fb = f32_of(a), f32_of(b)
+        want = "V #t" if fa == fb else "V #f"
+        if result != want:
+            return "both operands are inexact and %s, yet eqv? answers %s" % ("numerically equal" if fa == fb else "not numerically equal", result)
     return None
